@@ -108,7 +108,11 @@ def segJ1 (W : Char → Bool) : Key → Text
   | .idx i => if i < 0 then '[' :: '#' :: (intText i ++ [']']) else seg W (.idx i)
   | k => seg W k
 
-def evalJsonPathJ1 (W : Char → Bool) (keys : List Key) : Text := '$' :: (keys.flatMap (segJ1 W))
+def segsJ1 (W : Char → Bool) : List Key → Text
+  | [] => []
+  | k :: ks => segJ1 W k ++ segsJ1 W ks
+
+def evalJsonPathJ1 (W : Char → Bool) (keys : List Key) : Text := '$' :: segsJ1 W keys
 
 /-! ### parsing the path text back (`_parse_path`) -/
 
